@@ -438,6 +438,16 @@ where
     let mut o = op_pw_integral::<T>(c);
     o.extend(op_integral_iter::<T>(c));
     o.extend(op_integral_iter_ref::<T>(c));
+    // the same two iterators fed from sources that do not know their length (size_hint lower bound 0) and from a
+    // hand-rolled generator: the result may not depend on what kind of iterator supplies the segments
+    let segs = parse_segs::<T>(&c["segs"]);
+    let v: Vec<_> = Segment::integral_iter(segs.clone().into_iter().filter(|_| true), knot_of(c)).collect();
+    o.extend(dump_segs(&v));
+    let mut src = segs.clone().into_iter();
+    let v: Vec<_> = Segment::integral_iter(std::iter::from_fn(move || src.next()), knot_of(c)).collect();
+    o.extend(dump_segs(&v));
+    let v: Vec<_> = Segment::integral_iter_ref(segs.iter().filter(|_| true), knot_of(c)).collect();
+    o.extend(dump_segs(&v));
     o
 }
 fn scalar_of(c: &Value) -> f64 {
@@ -480,6 +490,27 @@ fn op_spline(c: &Value) -> Vec<u64> {
 fn op_polyn_eval(c: &Value) -> Vec<u64> {
     let p = PolyN(u64s(&c["cs"]).iter().map(|&b| f(b)).collect());
     u64s(&c["xs"]).iter().map(|&x| p.evaluate(f(x)).to_bits()).collect()
+}
+// Piecewise<PolyN>::translate: pieces of any length (also empty); dump = count, then end, length, coefficients per piece
+fn op_pw_translate_polyn(c: &Value) -> Vec<u64> {
+    let segments: Vec<Segment<PolyN>> = c["segs"]
+        .as_array()
+        .expect("segs")
+        .iter()
+        .map(|s| {
+            let a = u64s(s);
+            Segment { end: f(a[0]), poly: PolyN(a[1..].iter().map(|&b| f(b)).collect()) }
+        })
+        .collect();
+    let mut pw = Piecewise { segments };
+    pw.translate(scalar_of(c));
+    let mut o = vec![pw.segments.len() as u64];
+    for s in pw.segments.iter() {
+        o.push(s.end.to_bits());
+        o.push(s.poly.0.len() as u64);
+        o.extend(s.poly.0.iter().map(|x| x.to_bits()));
+    }
+    o
 }
 fn op_polyn_translate(c: &Value) -> Vec<u64> {
     let mut p = PolyN(u64s(&c["cs"]).iter().map(|&b| f(b)).collect());
@@ -692,6 +723,7 @@ fn run_case(c: &Value) -> Vec<u64> {
         "spline" => op_spline(c),
         "polyn_eval" => op_polyn_eval(c),
         "polyn_translate" => op_polyn_translate(c),
+        "pw_translate_polyn" => op_pw_translate_polyn(c),
         "arbitrary" => t_poly!(ty; op_arbitrary(c)),
         "arbitrary_nested" => t_poly!(ty; op_arbitrary_nested(c)),
         "arb_eval_nested" => t_poly!(ty; op_arb_eval_nested(c)),
